@@ -335,9 +335,20 @@ impl GraphEngine {
 
     // T203: HNSW Public API
     pub fn insert_vector(&self, id: InternalNodeId, vector: Vec<f32>) -> Result<()> {
+        let mut catalog = self.index_catalog.lock().unwrap();
         let mut pager = self.pager.write().unwrap();
         let mut idx = self.vector_index.lock().unwrap();
-        idx.insert(&mut *pager, id, vector)
+        idx.insert(&mut *pager, id, vector)?;
+        // The trees are reloaded from the catalog on open: record a root that moved.
+        for (name, root) in [
+            ("__sys_hnsw_vec", idx.vector_store().root()),
+            ("__sys_hnsw_graph", idx.graph_store().root()),
+        ] {
+            if catalog.get(name).map(|def| def.root) != Some(root) {
+                catalog.update_root(&mut pager, name, root)?;
+            }
+        }
+        Ok(())
     }
 
     pub fn search_vector(&self, query: &[f32], k: usize) -> Result<Vec<(InternalNodeId, f32)>> {
